@@ -5,7 +5,7 @@ import json, os, re, random, time
 from vlib import *
 
 FLOW_INVS = ["TypeOK", "C04_Once", "C04_Prefix", "C04_AtReturn", "C04_Tasks", "C05_NoEarly", "C06_Bound",
-             "C08_Order", "C09_FailStops", "C09_NoSilent", "C02_NoReexec", "C16_Closure", "C17_NoFile", "C17_NoFifoLeft", "C17_Rendezvous"]
+             "C08_Order", "C09_FailStops", "C09_NoSilent", "C02_NoReexec", "C16_Closure", "C17_NoFile", "C17_NoFifoLeft", "C17_Rendezvous", "C18_Whole"]
 MON_INVS = ["M_C04_Once", "M_C04_OnlyExpected", "M_C04_AtReturn", "M_C05_NoEarly", "M_C05_NoLateWork", "M_C06_Bound", "M_C08_Order", "M_C08_PerUpstream",
             "M_C09_NotPublished", "M_C09_NoSilent", "M_C09_EndStatus", "M_C02_NoReexec", "M_C16_Closure"]
 
@@ -164,8 +164,8 @@ def validate_traces(inst, exp, rrs, weak=None):
     files = {"inst.json": inst_json(inst), "trace.ndjson": ndjson(rows), "expected.json": json.dumps(exp)}
     mon = run_tlc("Monitor", "Monitor.cfg", files=files, workers=1, timeout=300)
     files["trace.ndjson"] = ndjson(drows)
-    if any(p.get("joins") or p.get("kind") in ("substream", "concat") for p in inst["procs"]):
-        return None, mon, drows      # joined ports / sub-streams are specified in Join.tla, not in Flow.tla: monitors only
+    if any(p.get("kind") in ("concat",) for p in inst["procs"]):
+        return None, mon, drows      # file-writing components are not process kinds of Flow.tla: monitors only
     det = run_tlc("FlowTrace", "ft.cfg", files=files, workers=1, timeout=300, cfgtext=trace_cfg(weak=weak), depth_first=False)
     return det, mon, drows
 
